@@ -58,6 +58,7 @@ func loopsOf(g *ssax.Graph) []natLoop {
 }
 
 func runC18(ctx *core.Ctx) {
+	c18SpaceClass(ctx)
 	ctx.Trusted = append(ctx.Trusted, "go/types, go/ssa", "bufio.Reader.ReadByte/Peek/Discard behave as documented")
 	p := ctx.P
 	ctx.Rule("RI1", "only bytes read: importReader.buf grows only where the byte just returned by a successful ReadByte is appended; every other assignment re-slices it; ReadImports and ReadComments return (a prefix of) that buffer", 4)
